@@ -30,6 +30,10 @@ R = {
  "C15-intern-stale-entry-overwrite": ("C15", ["C15 quick: VIOLATION (two live handles of equal values point to different allocations)"], "caught as built"),
  "C16-pinned-candidate-wrong-region": ("C16", ["C16 quick: VIOLATION (quiescent: 69 resident entries, capacity 33, nothing pinned)"],
    "missed at first: no generated stream wrote entries that are pinned from the start, which is how the cached maps use the cache. Added pinned writes, bursts of them (a write batch) and release-all; the quiescent phase now drives maintenance with scratch writes and waits long enough for the Poll strategy."),
+ "C14-derive-combines-last-parameter-only": ("C14", ["C14 quick: VIOLATION (Gen<String,u8> and Gen<u8,u8> share one id)"], "caught as built"),
+ "C01b-dirtied-set-cleared-after-propagation": ("C01", ["C01 quick: VIOLATION (38 s)", "C03 quick: VIOLATION (7 s)"], "caught as built (second, independent change for C01)"),
+ "C09b-overlay-keeps-added-after-remove": ("C09", ["C09 quick: VIOLATION (39 s, set above the 1024 spill threshold)"], "caught as built (second, independent change for C09)"),
+ "C03b-dirty-firewall-edge-means-recompute": ("C03", ["C03 quick: VIOLATION (44 s)", "C01 quick: OK (values stay correct)"], "caught as built (second, independent change for C03)"),
 }
 rows = []
 for sid, (prop, ran, note) in R.items():
